@@ -29,6 +29,14 @@ NOT_DECIDED = ["datagram loss during the handshake", "timing of concurrent dials
 ASSUMPTIONS = []
 
 
+def _reach_avoiding(b, start, goal, avoid, via):
+    """is there a path start -> via -> goal that does not pass `avoid`?"""
+    r1 = b.reachable_from(start, avoid=(avoid,))
+    if via not in r1:
+        return False
+    return goal in b.reachable_from(via, avoid=(avoid,))
+
+
 def run(cx):
     prog = cx.prog
 
@@ -219,7 +227,7 @@ def run(cx):
         b = cx.body(f"{MGR}::handle_connecting_result")
         o = Origins(b)
         sends = b.calls_to("tokio::sync::oneshot::Sender::send")
-        ob.floor(sends, 2, "oneshot sends in handle_connecting_result", exact=True)
+        ob.floor(sends, 1, "oneshot sends in handle_connecting_result")
         ap = b.calls_to(f"{MGR}::add_peer")
         ob.floor(ap, 1, "add_peer call", exact=True)
         conn = strip_identity(arg_origin(ap[0], 1, o))
@@ -227,21 +235,25 @@ def run(cx):
         ob.require(ok_conn, "reply/registers-ok-payload", f"add_peer argument is {show(conn)}", b.path)
         n_ok = 0
         for c in sends:
-            v = strip_identity(arg_origin(c, 1, o))
             ch = arg_origin(c, 0, o)
             ob.require(mentions_field(ch, "maybe_oneshot"), "reply/channel", f"reply sent on {show(ch)}", b.path, b.loc(c.bb))
-            if v[0] == "agg" and v[2].endswith("Result::Ok"):
-                n_ok += 1
-                p = strip_identity(v[3][0])
-                ok = p[0] == "call" and name_matches(p[1], "anemo::connection::Connection::peer_id") and strip_identity(p[2][0]) == conn
-                ob.require(ok, "reply/id-is-authenticated", f"success reply carries {show(p)}", b.path, b.loc(c.bb))
-                ob.require(b.dominates(ap[0].bb, c.bb), "reply/after-registration", "success reply is not dominated by add_peer", b.path, b.loc(c.bb))
-            elif v[0] == "agg" and v[2].endswith("Result::Err"):
-                e = strip_identity(v[3][0])
-                ob.require(e[0] == "field" and e[1][0] == "variant" and e[1][2] == "Err", "reply/err-forwarded", f"failure reply carries {show(e)}", b.path, b.loc(c.bb))
-                ob.require(not b.dominates(ap[0].bb, c.bb) and ap[0].bb not in b.reachable_from(c.bb), "reply/err-not-registered", "failure path registers a peer", b.path)
-            else:
-                ob.fail("refuted", "reply/unknown", f"reply value {show(v)}", b.path, b.loc(c.bb))
+            # one send per arm, or one send of a reply value built in the arms (hoisted): judge each reply value where it is built
+            for dbb, v in phi_alternatives(b, o, c.args[1]):
+                v = strip_identity(v)
+                at = dbb if dbb is not None else c.bb
+                if v[0] == "agg" and v[2].endswith("Result::Ok"):
+                    n_ok += 1
+                    p = strip_identity(v[3][0])
+                    ok = p[0] == "call" and name_matches(p[1], "anemo::connection::Connection::peer_id") and strip_identity(p[2][0]) == conn
+                    ob.require(ok, "reply/id-is-authenticated", f"success reply carries {show(p)}", b.path, b.loc(at))
+                    ob.require(b.dominates(ap[0].bb, c.bb) if dbb is None else (ap[0].bb in b.reachable_from(0) and (b.dominates(ap[0].bb, dbb) or dbb in b.reachable_from(ap[0].bb) and not _reach_avoiding(b, 0, c.bb, ap[0].bb, via=dbb))),
+                               "reply/after-registration", "success reply is not preceded by add_peer on every path", b.path, b.loc(at))
+                elif v[0] == "agg" and v[2].endswith("Result::Err"):
+                    e = strip_identity(v[3][0])
+                    ob.require(e[0] == "field" and e[1][0] == "variant" and e[1][2] == "Err", "reply/err-forwarded", f"failure reply carries {show(e)}", b.path, b.loc(at))
+                    ob.require(not b.dominates(ap[0].bb, at) and ap[0].bb not in b.reachable_from(at), "reply/err-not-registered", "failure path registers a peer", b.path)
+                else:
+                    ob.fail("refuted", "reply/unknown", f"reply value {show(v)}", b.path, b.loc(at))
         ob.require(n_ok == 1, "reply/one-success-site", f"{n_ok} success reply sites", b.path)
         # "registered" must mean registered: inside add_peer every path to return passes ActivePeers::add(own id, the
         # connection handed in) — afterwards either this connection or the one that won the tie-break is in the map —
@@ -268,11 +280,17 @@ def run(cx):
         t = no.of_rvalue(rq[0]["rv"])
         ok = t[2].endswith("::ConnectRequest") and strip_identity(t[3][0]) == ("upvar", "addr") and strip_identity(t[3][1]) == ("upvar", "peer_id")
         ob.require(ok, "connect/request", f"connect request is {show(t)}", nb.path)
-        hb = cx.body(f"{MGR}::handle_connect_request")
-        c = hb.calls_to(f"{MGR}::dial_peer")
-        ho = Origins(hb)
-        ob.require(len(c) == 1 and is_param(arg_origin(c[0], 1, ho), "address") and is_param(arg_origin(c[0], 2, ho), "peer_id") and is_param(arg_origin(c[0], 3, ho), "oneshot"),
-                   "connect/forwarded", "handle_connect_request does not forward (address, peer_id, oneshot) to dial_peer", hb.path)
+        # the mailbox arm of the manager loop forwards the request's (address, peer_id, oneshot) to dial_peer
+        # (handle_connect_request, a pure forwarder, is always inlined by the normaliser)
+        lb_ = prog.callers_of(f"{MGR}::handle_connecting_result")[0].body
+        c = [x for x in lb_.calls_to(f"{MGR}::dial_peer") if not lb_.is_cleanup(x.bb)]
+        ho = Origins(lb_)
+
+        def req_field(t, idx):
+            t = strip_identity(t)
+            return t[0] == "field" and t[2] == str(idx) and any(x[0] == "variant" and x[2] == "ConnectRequest" for x in walk(t)) and term_has_call(t, "mpsc::bounded::Receiver::recv")
+        ob.require(len(c) == 1 and all(req_field(arg_origin(c[0], i + 1, ho), i) for i in range(3)),
+                   "connect/forwarded", "the ConnectRequest arm does not forward (address, peer_id, oneshot) to dial_peer", lb_.path)
         db = cx.body(f"{MGR}::dial_peer")
         c = db.calls_to(f"{MGR}::dial_peer_task")
         do = Origins(db)
@@ -286,8 +304,9 @@ def run(cx):
             o = Origins(c.body)
             own = owner_path(prog, c.body)
             t = strip_identity(o.of_operand(c.args[2]))
-            if own == f"{MGR}::handle_connect_request":
-                ob.require(is_param(t, "peer_id"), "pin/explicit-forwards", f"explicit dial passes {show(t)[:60]} as expected identity", c.body.path, c.body.loc(c.bb))
+            if own == f"{MGR}::start":
+                okf = t[0] == "field" and t[2] == "1" and any(x[0] == "variant" and x[2] == "ConnectRequest" for x in walk(t))
+                ob.require(okf, "pin/explicit-forwards", f"explicit dial passes {show(t)[:60]} as expected identity", c.body.path, c.body.loc(c.bb))
             elif own == f"{MGR}::handle_connectivity_check":
                 ok = t[0] == "agg" and t[2].endswith("Option::Some") and mentions_field(t[3][0], "peer_id") and term_has_call(t[3][0], "Iterator::next")
                 ob.require(ok, "pin/background-pinned", f"background dial passes {show(t)[:80]} as expected identity (must be Some(known peer id))", c.body.path, c.body.loc(c.bb))
